@@ -23,7 +23,8 @@
 (*         shipped : Seq(FILE),             \* what the distribution archive contains below elasticsearch-x/    *)
 (*         preserve: BOOLEAN,                                                                                  *)
 (*         node    : [vars : key -> VAL      \* Rally's own node variables as derived from its start arguments  *)
-(*                    default_data, home : STRING, watch : Seq([p : STRING, inHome : BOOLEAN])]]                *)
+(*                    default_data, home : STRING,                                                             *)
+(*                    watch : Seq([p : STRING, inHome : BOOLEAN (below home), pre : BOOLEAN (string prefix home)])]] *)
 (* out  = [err, names, paths, vars, final : [captured, vars], tree : path -> Seq(SEG), dataPaths, home,         *)
 (*         after : [exists : watched path -> BOOLEAN, same : BOOLEAN]]                                         *)
 (* SEG  = [t : cid, vals : Seq(Seq(STRING))]  one rendering of a template / one verbatim blob (vals = <<>>)     *)
@@ -198,10 +199,11 @@ Unpacked(inp) ==
 
 \* provisioner.cleanup(preserve, node_config.binary_path, node_config.data_paths)
 CodeAfter(inp, dps) ==
-    LET inHome(p) == \E w \in ToSet(inp.node.watch) : w.p = p /\ w.inHome
+    LET w(p) == CHOOSE x \in ToSet(inp.node.watch) : x.p = p
+        skipped(p) == Variant = "keep_data" \/ (Variant = "prefix_skip" /\ w(p).pre)   \* seeded faults only
         gone(p) == IF inp.preserve /\ Variant # "ignore_preserve" THEN FALSE
-                   ELSE p = inp.node.home \/ inHome(p) \/ (p \in ToSet(dps) /\ Variant # "keep_data")
-    IN  [exists |-> [p \in {w.p : w \in ToSet(inp.node.watch)} |-> ~gone(p)], same |-> inp.preserve /\ Variant # "ignore_preserve"]
+                   ELSE p = inp.node.home \/ w(p).inHome \/ (p \in ToSet(dps) /\ ~skipped(p))
+    IN  [exists |-> [p \in {x.p : x \in ToSet(inp.node.watch)} |-> ~gone(p)], same |-> inp.preserve /\ Variant # "ignore_preserve"]
 
 ErrOut(e) == [err |-> e, names |-> <<>>, paths |-> <<>>, vars |-> NoVars, final |-> [captured |-> FALSE, vars |-> NoVars],
               tree |-> NoVars, dataPaths |-> <<>>, home |-> "", after |-> [exists |-> NoVars, same |-> FALSE]]
